@@ -169,4 +169,17 @@ theorem C05_loops_translated (credentialed : Bool) (names : List Bytes) :
 
 #print axioms C05_loops_translated
 
+
+/-- **C05 (translated origin loop).** One iteration of the `for _, raw := range patterns` loop of `validateOrigins` — the `*`
+incompatibilities, `origins.ParsePattern` and its error, the insecure-origin and public-suffix guards with their tolerance
+switches (each reported, in the code's order, none skipping another), `tree.Insert` — is translated from /repo's config.go on
+every run and equals `Validate.originStep` for every loop state and element (whatever the IDNA / public-suffix oracles
+answer); hence the fold over any list of patterns is the model's. -/
+theorem C05_originLoop_translated (ext : Ext) (credentialed pnaAny tolInsecure tolPSL : Bool) (patterns : List Bytes) :
+    patterns.foldl (Gen.GoSrc.originStep ext credentialed pnaAny tolInsecure tolPSL) {} =
+      patterns.foldl (Validate.originStep ext credentialed pnaAny tolInsecure tolPSL) {} :=
+  Translated.originLoop_eq ext credentialed pnaAny tolInsecure tolPSL patterns
+
+#print axioms C05_originLoop_translated
+
 end Cors
